@@ -16,6 +16,15 @@ def relabel(seed):
     return RELABEL[seed % len(RELABEL)]
 
 
+def max_step2(seed):
+    """A max_step that separates every squared/unsquared confusion on the BASE3 differences {1, 1.5, 2.5}*|a|:
+    with m = 2|a| there is a difference d (1.5|a|) with d <= m < d*d/|a|... concretely for |a| = 1: d = 1.5 <= 2 < 2.25 = d^2
+    (a kernel comparing d^2 with m differs), and d = 2.5 with m < d <= m^2 (a kernel comparing d with m^2 differs);
+    1.2 separates none of them (1 | 1.5 is split by 1.2 and by 1.44 alike)."""
+    a, b = relabel(seed)
+    return 2.0 * abs(a)
+
+
 def alphabet(base, seed):
     a, b = relabel(seed)
     return tuple(a * x + b for x in base)
